@@ -352,9 +352,31 @@ func checkC14(c *Ctx) {
 			case "mart":
 				f.Tops = append(consts, Top{K: "mart", Name: label, Items: items})
 			default:
-				f.Tops = []Top{{K: "script", Name: "S", Body: []Stmt{{K: "cmd", Toks: []string{"applymovement", "OBJ", ",", "@inl0"},
-					Inl: []Inline{{Kind: "moves", Steps: items}}}}}}
-				label = "S_Movement_0"
+				// an earlier moves() in the same script that differs from this one only in one
+				// multiplier: the two lists must not be confused
+				var sib []ListItem
+				for _, it := range items {
+					if it.PS == nil {
+						sib = append(sib, ListItem{Name: it.Name, Mul: it.Mul})
+					}
+				}
+				body := []Stmt{}
+				if len(sib) > 0 {
+					k := r.Intn(len(sib))
+					v, okm := mulValue(sib[k].Mul)
+					switch {
+					case !okm || sib[k].Mul == "":
+						sib[k].Mul = "2"
+					case v < 9999:
+						sib[k].Mul = fmt.Sprint(v + 1)
+					default:
+						sib[k].Mul = fmt.Sprint(v - 1)
+					}
+					body = append(body, Stmt{K: "cmd", Toks: []string{"mvA", "OBJ", ",", "@inl0"}, Inl: []Inline{{Kind: "moves", Steps: sib}}})
+				}
+				body = append(body, Stmt{K: "cmd", Toks: []string{"mvB", "OBJ", ",", "@inl0"}, Inl: []Inline{{Kind: "moves", Steps: items}}})
+				f.Tops = []Top{{K: "script", Name: "S", Body: body}}
+				label = "@mvB"
 			}
 			src, _ := RenderFile(f, Style{R: r, Layout: i % 3})
 			o := Opts{Optimize: true, Switches: map[string]string{"GAME": "RUBY"}}
@@ -369,6 +391,16 @@ func checkC14(c *Ctx) {
 			if res.Err == nil {
 				outOf[id] = res.Out
 				pa := ParseAsm(res.Out)
+				if label == "@mvB" {
+					// the label the real output passes to the second command
+					for _, l := range pa.Lines {
+						if l["k"] == "ins" && l["op"] == "mvB" {
+							if a := l["a"].([]string); len(a) > 0 {
+								label = a[len(a)-1]
+							}
+						}
+					}
+				}
 				rle := []map[string]interface{}{}
 				all2 := true
 				for k, l := range pa.Lines {
